@@ -183,7 +183,15 @@ def cargo_build(crate, bins=None, features=None, timeout=2400, jobs=None, env=No
     if p.returncode != 0:
         raise ToolError("cargo build failed in %s:\n%s" % (crate_dir, "\n".join(p.stdout.splitlines()[-80:])))
     log("cargo build %s: %.1fs" % (crate, time.time() - t0))
-    return {b: os.path.join(crate_dir, "target", "release", b) for b in bins}
+    res = {b: os.path.join(crate_dir, "target", "release", b) for b in bins}
+    missing = [b for b, pth in res.items() if not os.path.exists(pth)]
+    if missing:
+        # (seen once when the sources changed while cargo was running): build again
+        p = subprocess.run(cmd, cwd=crate_dir, env=e, stdout=subprocess.PIPE, stderr=subprocess.STDOUT, text=True, timeout=timeout)
+        missing = [b for b, pth in res.items() if not os.path.exists(pth)]
+        if p.returncode != 0 or missing:
+            raise ToolError("cargo build did not produce %s in %s:\n%s" % (missing, crate_dir, "\n".join(p.stdout.splitlines()[-40:])))
+    return res
 
 
 def shadow_crate(crate):
